@@ -908,7 +908,7 @@ class Interp:
         if r is not None: return r
         gm = re.search(r'::<((?:[^<>]|<(?:[^<>]|<(?:[^<>]|<[^<>]*>)*>)*>)*)>$', callee)
         base = callee[:gm.start()] if gm else callee
-        tys = [t.strip() for t in split_top(gm.group(1), ',')] if gm else None
+        tys = [t.strip() for t in split_top(gm.group(1), ',') if not t.strip().startswith("'")] if gm else None
         if base in self.fns: return ('mir', self.fns[base], self.tysub(self.fns[base], tys))
         r = models.lookup(self, callee, base)
         if r is not None: return r
